@@ -75,15 +75,27 @@ func vU8N(prefix string, k int) uint8   { return uint8(vVal(fmt.Sprintf("%s%d", 
 func vU16N(prefix string, k int) uint16 { return uint16(vVal(fmt.Sprintf("%s%d", prefix, k))) }
 func vBoolN(prefix string, k int) bool  { return vVal(fmt.Sprintf("%s%d", prefix, k)) != 0 }
 
-func vArrGet(name string, i uint64) uint8 {
+func vArrGet(name string, i uint64) uint8 { return uint8(vArrGet64(name, i)) }
+
+func vArrGet64(name string, i uint64) uint64 {
 	a, ok := vReplay.Arrays[name]
 	if !ok {
 		return 0
 	}
 	if v, ok := a.M[fmt.Sprint(i)]; ok {
-		return uint8(v)
+		return uint64(v)
 	}
-	return uint8(a.Def)
+	return uint64(a.Def)
+}
+
+func vIntKind(k reflect.Kind) (signed, ok bool) {
+	switch k {
+	case reflect.Int, reflect.Int8, reflect.Int16, reflect.Int32, reflect.Int64:
+		return true, true
+	case reflect.Uint, reflect.Uint8, reflect.Uint16, reflect.Uint32, reflect.Uint64, reflect.Uintptr:
+		return false, true
+	}
+	return false, false
 }
 
 func vBytes(name string, n int) []uint8 {
@@ -197,15 +209,37 @@ func vHavocRec(v reflect.Value, name string) {
 			vHavocRec(v.Field(i), name+"."+v.Type().Field(i).Name)
 		}
 	case reflect.Array:
-		if v.Type().Elem().Kind() == reflect.Uint8 {
+		if signed, ok := vIntKind(v.Type().Elem().Kind()); ok {
+			// integer arrays of any width are one SMT array in the engine
 			for i := 0; i < v.Len(); i++ {
-				v.Index(i).SetUint(uint64(vArrGet(name, uint64(i))))
+				if signed {
+					v.Index(i).SetInt(int64(vArrGet64(name, uint64(i))))
+				} else {
+					v.Index(i).SetUint(vArrGet64(name, uint64(i)))
+				}
 			}
 			return
 		}
 		for i := 0; i < v.Len(); i++ {
 			vHavocRec(v.Index(i), fmt.Sprintf("%s[%d]", name, i))
 		}
+	case reflect.Slice:
+		// integer slices: arbitrary length 0..4 (name.len) and contents; other
+		// slices stay nil
+		if signed, ok := vIntKind(v.Type().Elem().Kind()); ok {
+			n := int(vVal(name + ".len"))
+			sl := reflect.MakeSlice(v.Type(), n, n)
+			for i := 0; i < n; i++ {
+				if signed {
+					sl.Index(i).SetInt(int64(vArrGet64(name, uint64(i))))
+				} else {
+					sl.Index(i).SetUint(vArrGet64(name, uint64(i)))
+				}
+			}
+			v.Set(sl)
+		}
+	case reflect.Ptr, reflect.Interface, reflect.Map, reflect.Func, reflect.Chan, reflect.String, reflect.UnsafePointer:
+		// left at the zero value (not modelled as arbitrary)
 	default:
 		panic("vHavoc: unsupported kind " + v.Kind().String())
 	}
@@ -226,7 +260,7 @@ func vHavocFields(p interface{}, name string, skip string) {
 		switch f.Type.Kind() {
 		case reflect.Bool, reflect.Int, reflect.Int8, reflect.Int16, reflect.Int32, reflect.Int64,
 			reflect.Uint, reflect.Uint8, reflect.Uint16, reflect.Uint32, reflect.Uint64, reflect.Uintptr,
-			reflect.Struct, reflect.Array:
+			reflect.Struct, reflect.Array, reflect.Slice:
 			vHavocRec(v.Field(i), name+"."+f.Name)
 		case reflect.Map:
 			if f.Type.Key().Kind() != reflect.Uint16 {
@@ -360,6 +394,14 @@ func vCancelReleased() bool {
 // vSettle gives a freshly woken goroutine time to run (native only; the
 // engine's environment model runs it at the moment of cancellation).
 func vSettle() { time.Sleep(20 * time.Millisecond) }
+
+// vSchedLazy selects the engine's lazy goroutine schedule (woken goroutines run
+// only when the main goroutine blocks or the harness settles).  Natively the
+// schedule is the runtime's; schedule-dependent counterexamples are therefore
+// replayed vStress() times and count as reproduced if any iteration fails.
+func vSchedLazy(on bool) {}
+
+func vStress() int { return 60 }
 
 // native stand-ins for the event-order intrinsics: event order is a property
 // of the SSA event structure and has no native observation
